@@ -224,6 +224,170 @@ def gen_formats():
     return '\n'.join(lines)
 
 
+# ---------------------------------------------------------------- the derivation loops of matrices.py
+
+class LoopTr:
+    """Translate one `while var:` loop body of `Vectors._pair_with` (straight-line assignments, augmented
+    assignments and one-armed `if not x:` blocks over ints and `arr[i]`) into a Lean state transformer
+    `fun (var i acc : Nat) => (var', i', acc')`. `(x & -x).bit_length() - 1` is the trailing-zero idiom `tz x`."""
+
+    AUG = {ast.BitAnd: '&&&', ast.BitOr: '|||', ast.Add: '+', ast.RShift: '>>>', ast.Sub: '-'}
+
+    def __init__(self, arrays):
+        self.arrays = arrays      # python name -> lean name
+
+    def expr(self, node, env):
+        if isinstance(node, ast.Constant) and isinstance(node.value, int) and node.value >= 0:
+            return str(node.value)
+        if isinstance(node, ast.Name):
+            if node.id in env:
+                return env[node.id]
+            raise Decline('unknown variable %s' % node.id)
+        if isinstance(node, ast.Subscript) and isinstance(node.value, ast.Name) and node.value.id in self.arrays:
+            return '%s[%s]!' % (self.arrays[node.value.id], self.expr(node.slice, env))
+        # (x & -x).bit_length() - 1
+        if (isinstance(node, ast.BinOp) and isinstance(node.op, ast.Sub) and isinstance(node.right, ast.Constant) and node.right.value == 1
+                and isinstance(node.left, ast.Call) and isinstance(node.left.func, ast.Attribute) and node.left.func.attr == 'bit_length'
+                and not node.left.args):
+            inner = node.left.func.value
+            if (isinstance(inner, ast.BinOp) and isinstance(inner.op, ast.BitAnd) and isinstance(inner.left, ast.Name)
+                    and isinstance(inner.right, ast.UnaryOp) and isinstance(inner.right.op, ast.USub)
+                    and isinstance(inner.right.operand, ast.Name) and inner.right.operand.id == inner.left.id):
+                return '(tz %s)' % self.expr(inner.left, env)
+            raise Decline('unsupported bit_length idiom')
+        if isinstance(node, ast.BinOp) and type(node.op) in self.AUG:
+            return '(%s %s %s)' % (self.expr(node.left, env), self.AUG[type(node.op)], self.expr(node.right, env))
+        raise Decline('unsupported loop expression %s' % ast.dump(node)[:80])
+
+    def block(self, stmts, env, lines, indent):
+        """Emit `let` lines; returns the updated env (SSA by shadowing)."""
+        for st in stmts:
+            if isinstance(st, ast.Assign) and len(st.targets) == 1 and isinstance(st.targets[0], ast.Name):
+                name = st.targets[0].id
+                lines.append('%slet %s := %s' % (indent, name, self.expr(st.value, env)))
+                env = dict(env, **{name: name})
+            elif isinstance(st, ast.AugAssign) and isinstance(st.target, ast.Name) and type(st.op) in self.AUG:
+                name = st.target.id
+                lines.append('%slet %s := %s %s %s' % (indent, name, self.expr(st.target, env), self.AUG[type(st.op)], self.expr(st.value, env)))
+                env = dict(env, **{name: name})
+            elif isinstance(st, ast.If) and not st.orelse:
+                test = st.test
+                if isinstance(test, ast.UnaryOp) and isinstance(test.op, ast.Not):
+                    cond = '%s = 0' % self.expr(test.operand, env)
+                else:
+                    cond = '%s ≠ 0' % self.expr(test, env)
+                inner = []
+                env2 = self.block(st.body, env, inner, indent + '    ')
+                changed = sorted(k for k in env2 if k not in env or True and any(
+                    isinstance(x, (ast.Assign, ast.AugAssign)) and (x.targets[0].id if isinstance(x, ast.Assign) else x.target.id) == k
+                    for x in st.body))
+                for k in changed:
+                    if k not in env:
+                        raise Decline('variable %s first assigned inside an if' % k)
+                tup = '(%s)' % ', '.join(changed) if len(changed) > 1 else changed[0]
+                lines.append('%slet %s :=' % (indent, tup))
+                lines.append('%s  if %s then' % (indent, cond))
+                lines += inner
+                lines.append('%s    %s' % (indent, tup))
+                lines.append('%s  else %s' % (indent, tup))
+            else:
+                raise Decline('unsupported loop statement %s' % type(st).__name__)
+        return env
+
+    def loop(self, node):
+        if not isinstance(node.test, ast.Name):
+            raise Decline('loop test is not a plain variable')
+        var = node.test.id
+        accs = [st.target.id for st in ast.walk(node) if isinstance(st, ast.AugAssign) and isinstance(st.op, ast.BitAnd)]
+        idxs = [st.target.id for st in ast.walk(node) if isinstance(st, ast.AugAssign) and isinstance(st.op, ast.Add)]
+        arrs = [n.value.id for n in ast.walk(node) if isinstance(n, ast.Subscript) and isinstance(n.value, ast.Name)]
+        if len(set(accs)) != 1 or len(set(idxs)) != 1 or len(set(arrs)) != 1 or arrs[0] not in self.arrays:
+            raise Decline('loop does not have one accumulator, one index and one array')
+        acc, idx, arr = accs[0], idxs[0], arrs[0]
+        lines = []
+        env = self.block(node.body, {var: var, idx: idx, acc: acc}, lines, '  ')
+        return {'var': var, 'idx': idx, 'acc': acc, 'arr': arr,
+                'body': '\n'.join(lines) + '\n  (%s, %s, %s)' % (var, idx, acc)}
+
+
+def gen_loops():
+    src = open(os.path.join(REPO, 'concepts', 'matrices.py')).read()
+    tree = ast.parse(src)
+    pw = [f for f in ast.walk(tree) if isinstance(f, ast.FunctionDef) and f.name == '_pair_with']
+    if len(pw) != 1:
+        raise Decline('no unique Vectors._pair_with')
+    closures = {f.name: f for f in pw[0].body if isinstance(f, ast.FunctionDef)}
+    out = ['import FCA.Model.Galois',
+           '/- GENERATED by harness/extract.py from the closures of Vectors._pair_with in concepts/matrices.py — do not edit.',
+           '   Each `while` loop body is a state transformer on (loop variable, i, accumulator). -/',
+           'namespace FCA.Generated', '']
+    tr = LoopTr({'other': 'other', 'self': 'self'})
+    shapes = {}
+    for name in ('prime', 'double', 'doubleprime'):
+        if name not in closures:
+            raise Decline('closure %s missing' % name)
+        fn = closures[name]
+        body = [st for st in fn.body if not (isinstance(st, ast.Expr) and isinstance(getattr(st, 'value', None), ast.Constant))]
+        loops, inits, k = [], {}, 0
+        skeleton = []
+        for st in body:
+            if isinstance(st, ast.While):
+                k += 1
+                info = tr.loop(st)
+                lname = '%s_loop%d' % (name, k)
+                out.append('def %s (other self : Array Nat) (%s %s %s : Nat) : Nat × Nat × Nat :=' % (lname, info['var'], info['idx'], info['acc']))
+                out.append(info['body'])
+                out.append('')
+                skeleton.append(('loop', lname, info))
+            elif isinstance(st, ast.Assign) and isinstance(st.targets[0], ast.Name):
+                skeleton.append(('assign', st.targets[0].id, ast.unparse(st.value)))
+            elif isinstance(st, ast.Return):
+                skeleton.append(('return', ast.unparse(st.value)))
+            else:
+                raise Decline('unsupported statement in closure %s' % name)
+        shapes[name] = skeleton
+    # the straight-line code around the loops must be the expected one
+    def shape_text(sk):
+        return [(a, b if a != 'loop' else (c['var'], c['idx'], c['acc'], c['arr'])) if a != 'return' else (a, b) for a, b, *c in
+                [(x[0], x[1], x[2]) if x[0] == 'loop' else (x[0], x[1], None) if x[0] == 'return' else (x[0], (x[1], x[2]), None) for x in sk]]
+    want = {
+        'prime': [('assign', ('prime', 'Prime')), ('assign', ('i', '0')), ('loop', ('bitset', 'i', 'prime', 'other')),
+                  ('return', 'make_prime(prime)')],
+        'double': [('assign', ('prime', 'Prime')), ('assign', ('i', '0')), ('loop', ('bitset', 'i', 'prime', 'other')),
+                   ('assign', ('double', 'Double')), ('assign', ('i', '0')), ('loop', ('prime', 'i', 'double', 'self')),
+                   ('return', 'make_double(double)')],
+        'doubleprime': [('assign', ('prime', 'Prime')), ('assign', ('i', '0')), ('loop', ('bitset', 'i', 'prime', 'other')),
+                        ('assign', ('bitset', 'prime')), ('assign', ('double', 'Double')), ('assign', ('i', '0')),
+                        ('loop', ('bitset', 'i', 'double', 'self')), ('return', 'make_double(double), make_prime(prime)')],
+    }
+    for name, sk in shapes.items():
+        got = []
+        for x in sk:
+            if x[0] == 'loop':
+                got.append(('loop', (x[2]['var'], x[2]['idx'], x[2]['acc'], x[2]['arr'])))
+            elif x[0] == 'assign':
+                got.append(('assign', (x[1], x[2])))
+            else:
+                got.append(('return', x[1][1:-1] if x[1].startswith('(') and x[1].endswith(')') and x[1].count('(') > 2 else x[1]))
+        if got != want[name]:
+            raise Decline('closure %s: the code around the loops changed: %r' % (name, got))
+    # closures as compositions of the regenerated loops (fuel = the loop variable itself)
+    out += ['/-- `prime(bitset)` -/',
+            'def prime (other self : Array Nat) (Prime _Double bitset : Nat) : Nat :=',
+            '  iterLoop (prime_loop1 other self) bitset bitset 0 Prime', '',
+            '/-- `double(bitset)` -/',
+            'def double (other self : Array Nat) (Prime Double bitset : Nat) : Nat :=',
+            '  let prime := iterLoop (double_loop1 other self) bitset bitset 0 Prime',
+            '  iterLoop (double_loop2 other self) prime prime 0 Double', '',
+            '/-- `doubleprime(bitset)` -/',
+            'def doubleprime (other self : Array Nat) (Prime Double bitset : Nat) : Nat × Nat :=',
+            '  let prime := iterLoop (doubleprime_loop1 other self) bitset bitset 0 Prime',
+            '  let double := iterLoop (doubleprime_loop2 other self) prime prime 0 Double',
+            '  (double, prime)', '',
+            'end FCA.Generated', '']
+    return '\n'.join(out)
+
+
 def write_if_changed(path, text):
     old = open(path).read() if os.path.exists(path) else None
     if old != text:
@@ -240,7 +404,7 @@ def regenerate(log=print):
     if REPO not in sys.path:
         sys.path.insert(0, REPO)
     status = {}
-    for name, fn in (('Predicates', gen_predicates), ('Junctors', gen_junctors), ('Formats', gen_formats)):
+    for name, fn in (('Predicates', gen_predicates), ('Junctors', gen_junctors), ('Formats', gen_formats), ('Loops', gen_loops)):
         path = os.path.join(GEN, name + '.lean')
         try:
             text = fn()
